@@ -1062,7 +1062,8 @@ func checkC12(c *Ctx) {
 	r := c.RNG
 	res := c.Res
 	res.ASCIIModel = true
-	res.Rule = "both flag packages (sources/flag, sources/pflag), NewSetWithArgs + Flags.VisitAll + one Set.Value per Set. Config types: random reflect.StructOf types (depth <= 3, value and pointer structs, field names from a vocabulary with known word lists, " +
+	c12TextCollections(c, c.scale(400, 20000))
+	res.Rule = "both flag packages (sources/flag, sources/pflag), NewSetWithArgs + Flags.VisitAll + one Set.Value per Set. First an oracle-only stream of text-unmarshalable leaves of slice / map kind (net.IP, a list type, a map type; by value, behind a pointer, nested; any subset of the flags given; defaults; rejected texts). Then: Config types: random reflect.StructOf types (depth <= 3, value and pointer structs, field names from a vocabulary with known word lists, " +
 		"dials tags in snake/camel/kebab/upper case on any level, dialsflag / dialspflag tags incl. \"-\", on struct-typed fields too) and one declared type (embedded struct, for dials.Config[T]); leaves: bool, string, every integer width incl. uintptr, float32/64, complex64/128, " +
 		"time.Duration, time.Time, a TextUnmarshaler, user-defined named scalars (uint8, string, int, bool, float64; rarely named complex), []string, every integer slice, map[string]string, map[string][]string, map[string]struct{}, user pointers, plus three unsupported kinds. " +
 		"Random templates (nil and non-nil pointer structs, defaults on ~65% of the leaves). Argument lists: any subset of the registered flags, 1-3 occurrences each, shuffled, in the forms -f v / --f v / -f=v / --f=v (pflag: --f v / --f=v), bare and =value bools; " +
